@@ -423,11 +423,20 @@ def _toposort(dsk, keys=None, returncycle=False, dependencies=None):
                         # which we detected the cycle.
                         cycle = [nodes.pop()]
                         cycle.append(prev)
+                        visited = {prev}
                         while prev != cycle[0]:
                             # Greedily take a step that takes us closest to completing the cycle.
                             # This may not give us the shortest cycle, but we get *a* short cycle.
-                            deps = dependents[cycle[-1]]
+                            # Never step onto a node twice (the greedy walk could otherwise
+                            # oscillate forever between nodes that are not on the DFS path);
+                            # back out of dead ends instead.
+                            deps = dependents[cycle[-1]] - visited
+                            if not deps:
+                                cycle.pop()
+                                prev = cycle[-1]
+                                continue
                             prev = min(deps, key=priorities.__getitem__)
+                            visited.add(prev)
                             cycle.append(prev)
                         cycle.reverse()
 
